@@ -8,10 +8,14 @@ import (
 	"unsafe"
 
 	"github.com/tencent/goom/internal/logger"
+	"github.com/tencent/goom/internal/simhook"
 )
 
 // acquireFromMMap enough executable space from holder
 func acquireFromMMap(len int) (uintptr, *[]byte, error) {
+	if err := simhook.Fault(simhook.SiteMmap, uintptr(len), 0); err != nil {
+		return 0, nil, err
+	}
 	executableSpace, err := syscall.Mmap(
 		-1,
 		0,
